@@ -7,7 +7,7 @@ disequalities).  "False" means *not proven*, never "satisfiable".
 """
 from math import gcd
 
-from .lin import (CNT_BOUNDS, INT_MAX, INT_MIN, key_signed, LEN_MAX, Lin, atoms_deep, dnf, f_not, lin, lit_atoms, neg_lit, sub_lins)
+from .lin import (CNT_BOUNDS, SYM_BOUNDS, INT_MAX, INT_MIN, key_signed, LEN_MAX, Lin, atoms_deep, dnf, f_not, lin, lit_atoms, neg_lit, sub_lins)
 
 STATS = {"unsat_calls": 0, "fm_runs": 0, "memo_hits": 0, "giveups": 0}
 _MEMO = {}
@@ -23,7 +23,7 @@ def atom_axioms(atoms, present):
         k = a[0]
         if k == "sym":
             ax.append(("le", lin(INT_MIN.get(a[2], 0)) - A))
-            ax.append(("le", A - INT_MAX.get(a[2], 2**64 - 1)))
+            ax.append(("le", A - min(INT_MAX.get(a[2], 2**64 - 1), SYM_BOUNDS.get(a, 2**130))))
         elif k == "len":
             ax.append(("le", -A))
             ax.append(("le", A - LEN_MAX))
